@@ -118,7 +118,8 @@ class Check:
         o.pc = _short(sp.And(*pc)) if pc else "True"
         o.replay = replay
         t0 = time.time()
-        goal = sp.sympify(goal)
+        goal = _prep(sp.sympify(goal))
+        pc = [_prep(c) for c in pc]
         if goal is sp.true:
             o.status, o.backend = "proved", "syntactic"
         elif goal is sp.false and not pc:
@@ -126,6 +127,9 @@ class Check:
             o.model = {}
         else:
             tmo = timeout_ms or (20000 if self.tier == "quick" else 120000)
+            from .symnp import IDEAL
+            if IDEAL["G"] is not None and (goal.free_symbols & set(IDEAL["syms"])):
+                pc = list(pc) + [sp.Eq(g, 0) for g in IDEAL["G"].exprs]
             r = z3back.prove(pc, goal, timeout_ms=tmo)
             o.backend = r.backend
             o.detail = r.detail
@@ -185,6 +189,8 @@ class Check:
         return ok
 
     def _after(self, o):
+        if os.environ.get("PYVC_VERBOSE"):
+            print(f"  [{o.status:9s}] {o.time_s:7.2f}s {o.backend:22s} {o.name}", flush=True)
         if o.status == "refuted" or o.status == "bounded-fail":
             k = self.known.get(o.name)
             if k is not None and k.get("status", "open") == "open":
@@ -287,7 +293,22 @@ class Check:
         return 1 if self.violations else 0
 
 
+def _prep(e):
+    """same canonical sum / atom symbols in hypotheses and goal before they go to the SMT solver"""
+    e = sp.sympify(e)
+    if e.has(sp.Sum):
+        from . import sigma
+        e = sigma.canon_syms(e)
+    return e
+
+
 def _short(e, n=400):
+    if isinstance(e, sp.Basic):
+        cnt = 0
+        for _ in sp.preorder_traversal(e):
+            cnt += 1
+            if cnt > 400:
+                return f"<expression with more than 400 nodes, head {type(e).__name__}>"
     s = str(e)
     return s if len(s) <= n else s[:n] + "..."
 
@@ -310,25 +331,76 @@ def normal_form(e):
     e = sp.sympify(e)
     if e == 0:
         return sp.Integer(0)
+    if e.has(sp.Sum):
+        from . import sigma
+        e = sigma.canon_syms(e)
     e = atoms_to_symbols(e)
+    if LATE_SUBST:
+        e = _recanon_radicals(e.xreplace(LATE_SUBST))
     e = canon_function_args(e)
     # cheap route first: one common denominator, then expand the numerator only
     num, den = sp.fraction(sp.together(e))
-    num = sp.expand(num)
+    num = _reduce(sp.expand(num))
     if num == 0:
         return sp.Integer(0)
     num2, _ = sp.fraction(sp.together(num))
-    num2 = sp.expand(num2)
+    num2 = _reduce(sp.expand(num2))
     if num2 == 0:
         return sp.Integer(0)
     return num2 / den
+
+
+LATE_SUBST = {}     # symbol -> expression, substituted when a normal form is computed (charts)
+
+
+def _recanon_radicals(e):
+    from .symnp import _csqrt
+
+    def rec(x):
+        if not x.args:
+            return x
+        x = x.func(*[rec(a) for a in x.args])
+        if x.is_Pow and x.exp.is_Rational and x.exp.q == 2:
+            r = _csqrt(x.base)
+            return r ** x.exp.p if x.exp.p != 1 else r
+        return x
+    return rec(e)
+
+
+RELATIONS = []      # [(polynomial relation == 0, main variable)] used to reduce numerators (set by contracts)
+
+
+def _reduce(num):
+    from .symnp import reduce_mod_ideal
+    num = reduce_mod_ideal(num)
+    for rel, var in RELATIONS:
+        if num.has(var):
+            try:
+                num = sp.expand(sp.rem(num, rel, var))
+            except Exception:  # noqa: BLE001
+                pass
+    return num
+
+
+_SUM_SYMS = {}
+
+
+def sums_to_symbols(e):
+    rep = {}
+    for s in e.atoms(sp.Sum):
+        v = _SUM_SYMS.get(s)
+        if v is None:
+            v = sp.Symbol(f"Sigma@{len(_SUM_SYMS)}", real=True)
+            _SUM_SYMS[s] = v
+        rep[s] = v
+    return e.xreplace(rep) if rep else e
 
 
 def canon_function_args(e):
     """arguments of uninterpreted / transcendental functions in cancelled p/q form, so that
     f(t*c/(t*a)) and f(c/a) become the same term"""
     from sympy.core.function import AppliedUndef
-    fn_types = (AppliedUndef, sp.acos, sp.asin, sp.atan, sp.sin, sp.cos, sp.tan, sp.exp, sp.sinc, sp.atan2)
+    fn_types = (AppliedUndef, sp.acos, sp.asin, sp.atan, sp.sin, sp.cos, sp.tan, sp.exp, sp.sinc, sp.atan2, sp.Abs, sp.sign)
 
     def rec(x):
         if not x.args:
